@@ -48,7 +48,9 @@ DefaultSegs == <<
   \* names outside ASCII (TLC strings are ASCII: {U+XXXX} is decoded by the driver's renderer, the observed names are matched as rendered):
   \* the same word spelled with a combining accent and precomposed - two DIFFERENT names, each kept as spelled
   [stem |-> "cafe{U+0301}",    num |-> -1,  exts |-> <<"png">>],
-  [stem |-> "caf{U+00E9}",     num |-> -1,  exts |-> <<"png">>]     \* (no number: the index is defined for <ASCII letters><digits> stems)
+  [stem |-> "caf{U+00E9}",     num |-> -1,  exts |-> <<"png">>],     \* (no number: the index is defined for <ASCII letters><digits> stems)
+  \* the LAST segment is used as a DIRECTORY by MC_PackUri.DirNames: a percent sign inside a directory name ("/ppt/my%20dir/slide1.xml")
+  [stem |-> "my%20dir",        num |-> -1,  exts |-> <<>>]
 >>
 
 SegIds(n) == 1..n
